@@ -16,6 +16,7 @@ SERVER_SETS = {
     'gss': {'kex': ['gss-group1-sha1-toWM5Slw5Ew8Mqkay+al2g==', 'gss-gex-sha1-x', 'gss-group1-sha1-eipGX3TCiQSrx573bT1o1Q==', 'curve25519-sha256'], 'key': ['ssh-ed25519'], 'enc': ['aes128-ctr'], 'mac': ['hmac-sha2-256']},
     'strict-cbc': {'kex': ['curve25519-sha256', 'kex-strict-s-v00@openssh.com'], 'key': ['ssh-ed25519'], 'enc': ['chacha20-poly1305@openssh.com', 'aes128-cbc', 'aes128-ctr'],
                    'mac': ['hmac-sha1-etm@openssh.com', 'umac-64-etm@openssh.com', 'hmac-sha2-256-etm@openssh.com']},
+    'none-both': {'kex': ['curve25519-sha256'], 'key': ['ssh-ed25519'], 'enc': ['none', 'aes128-ctr'], 'mac': ['none', 'hmac-sha2-256']},
     'pseudo': {'kex': ['curve25519-sha256', 'ext-info-s', 'kex-strict-s-v00@openssh.com'], 'key': ['ssh-ed25519', 'ssh-ed25519-cert-v01@openssh.com'], 'enc': ['aes128-ctr'],
                'mac': ['hmac-sha2-256']},
 }
@@ -74,7 +75,10 @@ class Recs(Harness):
         rec = d['recommendations']
         flat = [(lvl, act, c, e['name']) for lvl in rec for act in rec[lvl] for c in rec[lvl][act] for e in rec[lvl][act][c]]
         shown = {c: [(e['algorithm'], e['notes']) for e in d[c]] for c in OL.CATS}
-        return {'recs': flat, 'shown': shown}
+        return self.more(M, L, sw, {'recs': flat, 'shown': shown})
+
+    def more(self, M, L, sw, obs):
+        return obs
 
     def check(self, inp, obs):
         if 'exc' in obs:
@@ -146,6 +150,15 @@ class Recs(Harness):
                 cond = av is not None and bool(av)
             okD = okD and cond and lvl == 'informational'
         yield 'additions-are-clean-unadvertised-available', okD
+        # G: the text report recommends exactly what the JSON report recommends (same action, category, name)
+        jset = [(act, c, name) for _, act, c, name in recs]
+        tset = obs.get('trecs')
+        if tset is None:
+            tset = jset
+
+        def has(lst, item):
+            return any(a == item[0] and c == item[1] and bool(n == item[2]) for a, c, n in lst)
+        yield 'text-recommendations==json-recommendations', len(jset) == len(tset) and all(has(tset, x) for x in jset) and all(has(jset, x) for x in tset)
         # E: nothing both ways
         keys = [(c, name) for _, act, c, name in recs]
         dup = any(keys[i][0] == keys[j][0] and bool(keys[i][1] == keys[j][1]) for i in range(len(keys)) for j in range(i + 1, len(keys)))
@@ -162,6 +175,36 @@ class Recs(Harness):
             if m and all(isinstance(x, str) and x.startswith('gss-') for x in m):
                 return 'gss-key-exchange-rated-but-never-recommended-for-removal'
         return label
+
+
+class RecsTextJson(Recs):
+    """as Recs, without the symbolic unknown name, plus the TEXT report of the same peer: its '(rec)' lines recommend exactly what the JSON report does."""
+
+    def __init__(self, product, vshape, sset, lead=None):
+        Recs.__init__(self, product, vshape, sset, lead)
+        self.name = 'recstext-' + self.name[len('recs-'):]
+
+    def inputs(self):
+        d = Recs.inputs(self)
+        d['unk'] = 'zz-unknown'
+        return d
+
+    def more(self, M, L, sw, obs):
+        # the text report of the same peer: its '(rec)' lines
+        t = OL.run_output(M, L, sw=sw)
+        if isinstance(t['ret'], Exc):
+            return {'exc': t['ret']}
+        trecs = []
+        for ln in t['lines']:
+            if OL._starts(ln, '(rec) '):
+                body = ln[6:]
+                sign = body[0]
+                j2 = body.find('-- ')
+                name = body[1:j2].rstrip(' ')      # (a name longer than the column is followed by the dashes directly)
+                cat = body[j2 + 3:j2 + 6]
+                trecs.append(({'-': 'del', '+': 'add', '!': 'chg'}.get(sign if isinstance(sign, str) else zx.shims.concretize_str(sign), '?'), cat if isinstance(cat, str) else zx.shims.concretize_str(cat), name))
+        obs['trecs'] = trecs
+        return obs
 
 
 class Ssh1Recs(Harness):
@@ -211,13 +254,16 @@ class TwoServers(Harness):
     prop, ob = PROP, 'O3'
     width = 64
 
-    def __init__(self, product, va, sb, lead=None):
-        self.product, self.va, self.sb, self.lead = product, va, tuple(sb), lead
-        self.name = 'twoservers-%s-%s-then-%s%s' % (product.replace(' ', ''), va, 'x'.join(map(str, sb)), '' if lead is None else '-lead%s' % lead)
+    def __init__(self, product, va, sb, lead=None, first_set='weak'):
+        # first_set: the algorithm lists of the FIRST server (the second always offers the 'weak' set); with another set and a symbolic second version that may
+        # equal the first one, two servers that identify as exactly the same software but are configured differently are covered
+        self.product, self.va, self.sb, self.lead, self.first_set = product, va, tuple(sb), lead, first_set
+        self.name = 'twoservers-%s-%s-then-%s%s%s' % (product.replace(' ', ''), va, 'x'.join(map(str, sb)), '' if lead is None else '-lead%s' % lead,
+                                                      '' if first_set == 'weak' else '-first(%s)' % first_set)
         self.cost = 100
 
     def params(self):
-        return {'product': self.product, 'va': self.va, 'sb': list(self.sb), 'lead': self.lead}
+        return {'product': self.product, 'va': self.va, 'sb': list(self.sb), 'lead': self.lead, 'first_set': self.first_set}
 
     def inputs(self):
         # the first server's version is concrete (an old and a new release), the second one symbolic
@@ -226,8 +272,8 @@ class TwoServers(Harness):
             zx.cur().assume(vb.startswith(self.lead))
         return {'va': self.va, 'vb': vb}
 
-    def recs(self, M, ver):
-        L = {c: list(v) for c, v in SERVER_SETS['weak'].items()}
+    def recs(self, M, ver, which='weak'):
+        L = {c: list(v) for c, v in SERVER_SETS[which].items()}
         j = OL.run_output(M, L, json=True, sw=BANNERS[self.product] + ver)
         if isinstance(j['ret'], Exc):
             return j['ret']
@@ -239,7 +285,7 @@ class TwoServers(Harness):
         fresh_process_state(M)
         alone = self.recs(M, inp['vb'])
         fresh_process_state(M)
-        first = self.recs(M, inp['va'])
+        first = self.recs(M, inp['va'], self.first_set)
         second = self.recs(M, inp['vb'])
         return {'alone': alone, 'second': second, 'first_ok': not isinstance(first, Exc)}
 
@@ -284,7 +330,7 @@ def tasks(tier):
     for prod, shs in shapes.items():
         for sh in shs:
             for ss in (SERVER_SETS if (prod in ('OpenSSH', 'Dropbear SSH') or not q) else ['weak']):
-                if q and prod == 'Dropbear SSH' and ss not in ('weak', 'gss'):
+                if q and prod == 'Dropbear SSH' and ss not in ('weak', 'gss', 'none-both'):
                     continue
                 if prod == 'OpenSSH' and sh == (1, 1):
                     for lead in '123456789':      # leading digit 0 is covered by the libssh/Dropbear shapes; OpenSSH 0.x does not exist
@@ -292,12 +338,18 @@ def tasks(tier):
                     T.append(Recs(prod, sh, ss, '0'))
                 else:
                     T.append(Recs(prod, sh, ss))
+    for prod, sh, ss, lead in [('Dropbear SSH', (4, 2), 'none-both', None), ('Dropbear SSH', (4, 2), 'weak', None), ('OpenSSH', (1, 1), 'none-both', '9'), ('OpenSSH', (1, 1), 'weak', '7'),
+                               ('libssh', (1, 1, 1), 'weak', None)]:
+        T.append(RecsTextJson(prod, sh, ss, lead))
     for prod, va, sb in [('OpenSSH', '10.0', (1, 1)), ('OpenSSH', '3.9', (1, 1)), ('OpenSSH', '5.3', (2, 1)), ('Dropbear SSH', '0.52', (4, 2)), ('libssh', '0.10.6', (1, 1, 1))]:
         if prod == 'OpenSSH' and sb == (1, 1):
             for lead in '0123456789':
                 T.append(TwoServers(prod, va, sb, lead))
         else:
             T.append(TwoServers(prod, va, sb))
+    # same product, possibly the very same version, different configuration
+    T.append(TwoServers('OpenSSH', '8.4', (1, 1), '8', 'modern'))
+    T.append(TwoServers('Dropbear SSH', '2020.81', (4, 2), '2020', 'gss'))
     T.append(Ssh1Recs())
     T.append(max_warn_count)
     return T
@@ -307,7 +359,9 @@ def harness_by_name(name, params):
     if name.split(':')[1].startswith('ssh1-recs'):
         return Ssh1Recs()
     if name.split(':')[1].startswith('twoservers'):
-        return TwoServers(params['product'], params['va'], params['sb'], params.get('lead'))
+        return TwoServers(params['product'], params['va'], params['sb'], params.get('lead'), params.get('first_set', 'weak'))
+    if name.split(':')[1].startswith('recstext'):
+        return RecsTextJson(params['product'], params['vshape'], params['sset'], params.get('lead'))
     return Recs(params['product'], params['vshape'], params['sset'], params.get('lead'))
 
 
